@@ -65,6 +65,10 @@ EXPLANATION += (
     'lists of lists) yields a labelled value.'
 )
 
+EXPLANATION += (
+    ' Round 5: settings are forwarded at every call (R-FWD/parameter-forwarded).'
+)
+
 RULE_TEXT = (
     "one obligation per (sink site, set of source labels) finding, per "
     "benign source used, per RNG construction, per merge loop, per worker "
@@ -104,6 +108,10 @@ def check(ctx):
     check_seeds(ctx)
     check_merge_order(ctx)
     check_worker_count(ctx)
+    # settings this property depends on are handed down every call
+    # chain, never left to a callee's default (sa/rules/forwarding.py)
+    from ..rules.forwarding import check_forwarding
+    check_forwarding(ctx, {'rng', 'rng_seed', 'n_processors'})
 
 
 # ----------------------------------------------------------------------
